@@ -598,7 +598,7 @@ func TestCheck(t *testing.T) {
 	run.Assume("variables reach graphql.Parse as json.Unmarshal output (map[string]interface{} with float64 numbers), as in graphql/http.go and graphql/server.go")
 	run.Assume("out of scope (not stated by C18): unknown extra arguments, fractional values for ints, negative values for uints, out-of-range integers, enum<->string confusions, -0, sub-second times")
 
-	n := run.N(5000, 500000)
+	n := run.N(40000, 1000000)
 	run.Each(n, 8, func(i int) { oneCase(run, i) })
 }
 
